@@ -4,7 +4,43 @@ from harness import fam_hash, fam_hash2
 TRUSTED = fam_hash.TRUSTED
 ASSUME = ["keys are unique (the constructor's precondition) and |key| <= 2**62"]
 RULE = fam_hash2.RULE2 + " || " + "HashTable histories; " + fam_hash.RULE
+def eq_stage(R, tier, rng):
+    """t1 == t2 for two tables that hold the same / nearly the same dictionary under different moduli and key orders, after assignments:
+    implementation against Hash.tbl_eq (extracted) and against equality of the dictionaries"""
+    import numpy as np
+    from npstructures import HashTable
+    from vlib import show, parse, oracle, guarded
+    cases = []
+    for trial in range(1500 if tier == "thorough" else 400):
+        k = rng.randint(1, 6)
+        pool = rng.sample(range(-20, 40), k + 2) + [2 ** 40 + 3, -(2 ** 40) + 1]
+        k1 = rng.sample(pool, k)
+        mode = trial % 5
+        k2 = list(k1); rng.shuffle(k2)
+        if mode == 3: k2 = k2[:-1] + [x for x in pool if x not in k1][:1]          # one key replaced
+        if mode == 4 and k > 1: k2 = k2[:-1]                                        # one key fewer
+        s1 = rng.choice([None, None, 0, 5]); s2 = s1 if mode != 2 else rng.choice([None, 0, 5, 6])
+        base = {x: rng.randint(0, 3) for x in pool}
+        v1 = [base[x] for x in k1] if s1 is None else []
+        v2 = [base[x] for x in k2] if s2 is None else []
+        if mode == 1 and s2 is None: v2[rng.randrange(len(v2))] += 1                # one value differs
+        if s1 is not None and s2 is None and mode == 0: v2 = [s1 for _ in k2]       # a constant table against the same constants per key
+        m1 = rng.choice([None, 1, 2, 3, 7]); m2 = rng.choice([None, 1, 2, 3, 7, m1])
+        def impl():
+            t1 = HashTable(k1, np.array(v1) if s1 is None else s1, mod=m1); t2 = HashTable(k2, np.array(v2) if s2 is None else s2, mod=m2)
+            return [int(bool(t1 == t2)), int(bool(t2 == t1))]
+        line = "hash_eq %s %s %s %s %s %s %s %s" % (show(k1), show(v1), show(s1), show(m1), show(k2), show(v2), show(s2), show(m2))
+        cases.append((line, guarded(impl), k >= 2, f"HashTable({k1}, {v1 if s1 is None else s1}, mod={m1}) == HashTable({k2}, {v2 if s2 is None else s2}, mod={m2})"))
+    out = oracle([c[0] for c in cases])
+    for (line, impl, nt, py), o in zip(cases, out):
+        if o.startswith("ERR"): m = sp = "oracle-error: " + o[:80]
+        else:
+            m, sp = parse(o); m = [m, m]; sp = [sp, sp]
+        R.record(line, impl, m, sp, nt, "eq/model+dictionary", py=py)
+
+
 def run(R, tier, rng):
+    eq_stage(R, tier, rng)
     fam_hash2.run_family2(R, tier, rng, False)
     fam_hash.run_family(R, tier, rng, counter=False)
 
